@@ -20,7 +20,7 @@ func verifSafeRel(name string, dir bool) bool {
 		}
 		name = name[:len(name)-1]
 	}
-	return isCleanAbs("/" + name)
+	return verifIsCleanAbs("/" + name)
 }
 
 // Verif_C04_A_MemberNames: for every destination spelling, the member names the
